@@ -59,16 +59,19 @@ def run(ctx):
             opcount[o[0].rstrip('B')] += 1
         sigs.add((r, c, tuple(o[0] for o in ops[-3:])))
         if real != ref and oracle_fail is None:
-            oracle_fail = (r, c, ops, real, ref)
+            oracle_fail = (r, c, ops, real, ref, n)
         if mo is not None and mo != real and corr_fail is None:
             corr_fail = (r, c, ops, real, mo)
     if oracle_fail:
-        r, c, ops, real, ref = oracle_fail
-        ops = shrink(r, c, ops)
-        real, ref = D.real_line(r, c, ops), D.ref_line(r, c, ops)
+        r, c, ops, real, ref, pick = oracle_fail
+        pick = pick % 4 if pick % 4 == 1 else pick % 2          # which method aliases are used, and whether a second screen is kept busy (see screen_drv.run_real)
+        if D.real_line(r, c, ops, alias_pick=pick) == D.ref_line(r, c, ops):
+            pick = oracle_fail[5]
+        ops = shrink(r, c, ops, pick)
+        real, ref = D.real_line(r, c, ops, alias_pick=pick), D.ref_line(r, c, ops)
         common.report(ctx, 'screen/%s' % ops[-1][0] if not real.startswith('EXC') else 'screen/raises/%s' % ops[-1][0],
                       'screen %dx%d after %s: real %s / reference grid %s' % (r, c, json.dumps(ops), first_diff(real, ref), ''),
-                      dict(rows=r, cols=c, ops=ops, real=real, reference=ref, how='harness/drivers/screen_drv.py real_line / ref_line'))
+                      dict(rows=r, cols=c, ops=ops, alias_pick=pick, real=real, reference=ref, how='harness/drivers/screen_drv.py real_line(rows, cols, ops, alias_pick) / ref_line; alias_pick % 4 == 1: a second screen of the same size is written to between the operations'))
     elif corr_fail:
         r, c, ops, real, mo = corr_fail
         ctx.broken.append('correspondence Screen model vs pexpect.screen on %dx%d %s: %s' % (r, c, json.dumps(ops)[:300], first_diff(real, mo)))
@@ -130,14 +133,14 @@ def first_diff(a, b):
     return '%s vs %s' % (a[:100], b[:100])
 
 
-def shrink(r, c, ops):
+def shrink(r, c, ops, pick=0):
     cur = list(ops)
     changed = True
     while changed:
         changed = False
         for i in range(len(cur)):
             cand = cur[:i] + cur[i + 1:]
-            if cand and D.real_line(r, c, cand) != D.ref_line(r, c, cand):
+            if cand and D.real_line(r, c, cand, alias_pick=pick) != D.ref_line(r, c, cand):
                 cur = cand; changed = True
                 break
     return cur
@@ -145,6 +148,6 @@ def shrink(r, c, ops):
 
 def replay(ctx, path):
     d = json.load(open(path))['replay']
-    real, ref = D.real_line(d['rows'], d['cols'], d['ops']), D.ref_line(d['rows'], d['cols'], d['ops'])
+    real, ref = D.real_line(d['rows'], d['cols'], d['ops'], alias_pick=d.get('alias_pick', 0)), D.ref_line(d['rows'], d['cols'], d['ops'])
     print(real); print(ref)
     return 0 if real == ref else 1
